@@ -46,7 +46,8 @@ def g5(run, thorough):
         asserts.append(('_Static_assert((%s) == VERIF_PRIM_OF(%s), "row %s");' % (e, tname, tname), 'row %s' % tname, 'emitted: %s' % e))
     compile_asserts(run, 'G5/compiler-resolved-primitive-is-the-real-type', 'Recompiler._emit_bytecode_Unknown{Integer,Float}Type', 'corpus p_dotint',
                     text + '\n' + INT_GENERIC, asserts, thorough,
-                    flags=['-I' + os.path.join(repo_root(), 'src/cffi'), '-I' + py_include(), '-DNDEBUG'])
+                    flags=['-I' + os.path.join(repo_root(), 'src/cffi'), '-I' + py_include(), '-DNDEBUG'],
+                    gcc_only={m_ for _a, m_, d_ in asserts if '_cffi_prim_float' in d_})
     return len(asserts)
 
 
